@@ -1,5 +1,5 @@
 ------------------------------- MODULE TraceFlow -------------------------------
-(* Events: Node n kind conc thr | Edge a b | Msg m s k | PutB n m | PutE n m ok | BB n m | BE n m | DecB n | TupQ/TupK n a b x y | Cancel | Uncancel |  *)
+(* Events: Node n kind conc thr | Edge a b | Msg m s k | PutB n m | PutE n m ok | BB n m | BE n m | DecB n [k] | TupQ/TupK n a b x y | Cancel | Uncancel |  *)
 (*         Rsv n m ok | Rel n m | Con n m | Get n m | Drained n cnt | Dlv sc v | OwCheck n sc |                                                               *)
 (*         WaitRet live lossless | Tuples n a b cnt | Scenario | Reset ; Stuck/Crash/Terminate unexplainable                                                *)
 EXTENDS Integers, Sequences, FiniteSets, TLC, Json, IOUtils
@@ -19,7 +19,7 @@ TNext == \/ Is("Node") /\ A!DeclNode(Ev.n, Ev.kind, Ev.conc, Ev.thr)
          \/ Is("PutE") /\ A!PutE(Ev.n, Ev.m, Ev.ok)
          \/ Is("BB") /\ A!BB(Ev.n, Ev.m)
          \/ Is("BE") /\ A!BE(Ev.n, Ev.m)
-         \/ Is("DecB") /\ A!DecB(Ev.n)
+         \/ Is("DecB") /\ A!DecB(Ev.n, IF "k" \in DOMAIN Ev THEN Ev.k ELSE 1)
          \/ Is("TupQ") /\ A!TupQ(Ev.n, Ev.a, Ev.b, Ev.x, Ev.y)
          \/ Is("TupK") /\ A!TupK(Ev.n, Ev.a, Ev.b, Ev.x, Ev.y)
          \/ Is("Rsv") /\ A!Reserve(Ev.n, Ev.m, Ev.ok)
